@@ -2,6 +2,8 @@ import PMV.Driver.Util
 import PMV.AstSexp
 import PMV.Spec.PyCore
 import PMV.Model.Scope
+import PMV.Model.RenameAst
+import PMV.Driver.Printer
 namespace PMV.Driver.PyCore
 open PMV PMV.Driver PMV.PyCore
 
@@ -50,5 +52,36 @@ def excTableCmd (_ : List Sexp) : Option String :=
 def runCmd (args : List Sexp) : Option String := runWith false args
 /-- `pycore.runO`: the same under `python -O` semantics -/
 def runOCmd (args : List Sexp) : Option String := runWith true args
+
+end PMV.Driver.PyCore
+
+namespace PMV.Driver.PyCore
+open PMV PMV.Driver PMV.PyCore PMV.RenameAst
+
+/-- a finite renaming as a function -/
+def renOf (pairs : List (String × String)) : Ren := fun x => (pairs.lookup x).getD x
+
+def pair? (s : Sexp) : Option (String × String) := do
+  match (← list? s) with
+  | [a, b] => pure ((← str? a), (← str? b))
+  | _ => none
+
+/-- one function's entry: `(name ((old new) …) (copied parameter …))` -/
+def fnEntry? (s : Sexp) : Option (String × List (String × String) × List String) := do
+  match (← list? s) with
+  | [n, ps, pro] => pure ((← str? n), (← (← list? ps).mapM pair?), (← (← list? pro).mapM str?))
+  | _ => none
+
+/-- `rename.applyast (entries) <module>` → `OK <0|1>` (the side condition of T01.13) and the text of the renamed module -/
+def renameApply (args : List Sexp) : Option String := do
+  match args with
+  | [es, m] =>
+    let es ← (← list? es).mapM fnEntry?
+    let m ← AstSexp.module? m
+    let R : RenTable := fun f => match es.lookup f with
+      | some (ps, pro) => (renOf ps, pro)
+      | none => (id, [])
+    pure (encStr ((if modOK R m then "OK 1\n" else "OK 0\n") ++ Driver.Printer.printModule (renModule R m)))
+  | _ => none
 
 end PMV.Driver.PyCore
